@@ -248,6 +248,47 @@ CHECKS = {
         "note": "libc model: mmap without MAP_FIXED returns MAP_FAILED or non-NULL; errno storage aliases nothing.",
     },
 }
+
+# ---- round 5 additions (kept as appendices so the reviewed texts above stay as they were) ------------------------------
+_R5 = {
+    "C02": ("+ loop-advance analysis of input reads (E15)",
+            " Inside every loop that walks an input buffer of the AEAD / MAC / secretbox units, each read through that buffer advances with the "
+            "loop (R2.8): an absorber that re-reads the bytes of its first iteration leaves the later associated-data / ciphertext bytes unauthenticated."),
+    "C03": ("+ bit-flow (E11) of the initial counter",
+            " Every bit of an initial-counter parameter `ic` (64-bit, or 32-bit for IETF) reaches a call argument or a store in every "
+            "crypto_stream function that has one (R3.7): a narrowing on the way to the backend aliases counters >= 2^32 with small ones."),
+    "C04": ("+ lane provenance of vector shuffles (E14)",
+            " The message schedule of the SSSE3 / SSE4.1 / AVX2 BLAKE2b compression functions, read off their shuffles, equals the blake2b_sigma table of "
+            "the portable implementation in every round and slot (R4.8; round 0 calibrates the slot layout)."),
+    "C05": ("+ static-storage write scan (E16)",
+            " No function of the X25519 / box / kx / HSalsa20 units writes a writable static object (R5.6, re-entrancy; the implementation slot is "
+            "set only by *_pick_best_implementation)."),
+    "C08": ("+ reader/writer table agreement",
+            " The scrypt setting-string decoder accepts exactly the encoder's alphabet (R8.6): it searches the very table the encoder indexes, or uses a "
+            "reverse table that maps every byte the success path admits to a digit whose character is that byte."),
+    "C09": ("+ final-content analysis of the counter region",
+            " On every returning path of rekey / init_push / init_pull the counter region (the bytes the wrap test reads) ends as the constants "
+            "01 00 00 00 whatever it held before (R9.4)."),
+    "C10": ("+ bit-flow (E11) of the soft-AES lane helpers",
+            " Every bit of an integer operand of the softaes_block_* helpers reaches the block they build, as it does for the AES-NI intrinsic "
+            "they stand for (R10.6)."),
+    "C12": ("+ null-contract contradiction rule",
+            " When an exported function (small static helpers inlined) compares a pointer parameter with NULL, every access through that parameter sits on "
+            "a path that knows it is not NULL (R12.7: tag-only verification with m == NULL, optional out-parameters)."),
+    "C15": ("",
+            " The output is declared full only for a character that has been read and classified as producing output (R15.5): a capacity test hoisted "
+            "above the classification refuses well-formed text of exactly the capacity that continues with an ignored or foreign character."),
+    "C18": ("",
+            " A generated secret does not depend on the previous content of the output buffer (R18.5): every returning path of a function that draws "
+            "into an output parameter draws, and nothing reads the buffer before the first draw."),
+    "C20": ("+ computed may-release-parameter summaries",
+            " Ownership across calls (R20.7): no exported function may release one of its own pointer parameters, and a pointer handed to a callee that may "
+            "release it is not released again - summaries computed over the call graph, no table."),
+}
+for _p, (_e, _t) in _R5.items():
+    if _e:
+        CHECKS[_p]["engine"] += " " + _e
+    CHECKS[_p]["text"] += _t
 _PENDING = "not claimed"
 NOT_APPLICABLE = {
     "C01": "every clause is an equality between computed byte strings and a mathematical specification over all keys/nonces/lengths/backends: "
